@@ -203,6 +203,8 @@ def check_c04(ctx):
     judge(ctx, "C04", "Trace_Parse_C04.cfg", pout, obs)
     _common_evidence(ctx, recs, obs, "multi-byte characters are adjacent to every marker in both orders at length <= 3")
     ctx.extra["exhaustive"] = True
+    from . import p_parser
+    p_parser.conformance(ctx, "C04")
 
 
 def check_c05(ctx):
@@ -224,6 +226,9 @@ def _replay(ctx, case, prop, cfg):
 
 
 def replay_c04(ctx, case):
+    if case["case"].get("kind") == "parser":
+        from . import p_parser
+        return p_parser.replay(ctx, case, "C04")
     return _replay(ctx, case, "C04", "Trace_Parse_C04.cfg")
 
 
